@@ -31,6 +31,7 @@ class blockiterator(object):
         if bitlen>mlen: raise PaddingError('input bitlen mismatch')
         if padding is False and bitlen%self.blocksize>0:
             raise PaddingError('input not a multiple of block size')
+        if padding is False and bitlen==0: return
         P = BytesIO(m)
         Pi = P.read(self.blocklen)
         bitcnt = 0
